@@ -29,7 +29,7 @@ def main(argv):
         ck.coq_gates(["Base", "C33", "C08"], THEOREMS, "EV.C08.Props")
     if bins:
         if os.path.exists(os.path.join(COQ, "theories/C08/Corr.vo")):
-            index_correspondence(ck, bins["c08"], ck.scale(60, 2500))
+            index_correspondence(ck, bins["c08"], ck.scale(60, 1200))
         if os.path.exists(os.path.join(COQ, "theories/C33/Corr.vo")):
             module_correspondence(ck, bins["c33"], ck.scale(60, 2500), label="modcorr")
         if ck.broken:
